@@ -260,13 +260,15 @@ fn failing_texts(rng: &mut SplitMix64, mix: u64) -> Vec<String>
 {
     let mut v: Vec<String> = Vec::new();
     let body = |rng: &mut SplitMix64| -> String {
-        let d = rng.below(3) as u32;
+        let d = rng.below(2) as u32;
         let a = gen_ast(rng, d, false);
         let c = lay(&a, 0, rng, false);
         let mut b = String::new(); flatten(&c, &mut b); b
     };
     let op = |rng: &mut SplitMix64| -> &'static str { *rng.pick(&["+", "-", "*", "/", "^"]) };
     let all = mix == 0;
+    // the short ones of every kind (for the long batches)
+    if mix == 5 { return ["(", "()", "(x)", "(1 +", "((2*", "sin(", "((((", "(2 * )", "1 + (2 ^ )", "(1+2"].iter().map(|t| t.to_string()).collect(); }
     if all || mix == 1
     {
         // `(1 +`: open parenthesis, operand, dangling operator
@@ -329,10 +331,11 @@ fn history_stream(out: &mut Out, rng: &mut SplitMix64)
     let sizes: &[usize] = if thorough() { &[50, 199, 200, 250, 1000, 5000] } else { &[50, 250, 1000] };
     for (bi, &n) in sizes.iter().enumerate()
     {
-        let nmix = if n <= 250 { 5 } else { 2 };
-        for mix0 in 0..nmix
+        // (a failing parse costs 4-9 ms: every level of the parser compiles its regular expressions anew)
+        let mixes: &[u64] = if n < 250 || (thorough() && n <= 250) { &[0, 1, 2, 3, 4] } else if n <= 250 { &[0, 1, 3] }
+            else if thorough() && n == 1000 { &[0, 5] } else { &[5] };
+        for &mix in mixes
         {
-            let mix = if n <= 250 { mix0 as u64 } else { [0u64, 3][mix0] };
             let fails = failing_texts(rng, mix);
             // the failing texts themselves, once each (their own thread; fewer than 50 of them)
             let answers = after_failures(0, &fails, || fails.iter().map(|t| answer(t)).collect::<Vec<_>>());
@@ -344,7 +347,7 @@ fn history_stream(out: &mut Out, rng: &mut SplitMix64)
             let mut texts: Vec<String> = Vec::new();
             for i in 0..nvalid
             {
-                let c = parenthesised(rng, i + bi + mix0);
+                let c = parenthesised(rng, i + bi + mix as usize);
                 let mut s = String::new();
                 flatten(&c, &mut s);
                 let rest = if i % 2 == 0 { String::new() } else { remainder(rng) };
@@ -353,11 +356,10 @@ fn history_stream(out: &mut Out, rng: &mut SplitMix64)
                 reqs.push(format!("{}g {} | {} | {}", prefix, hex(&s), rl, ser(&c)));
                 texts.push(s);
             }
-            // the first two each with exactly this history (own thread); the others one after another on one thread
-            let exact = if n <= 250 { 2 } else { 1 };
-            for i in 0..exact { let a = after_failures(n, &fails, || answer(&texts[i])); out.case(&reqs[i], &a); }
-            let answers = after_failures(n, &fails, || texts[exact..].iter().map(|t| answer(t)).collect::<Vec<_>>());
-            for (r, a) in reqs[exact..].iter().zip(answers.iter()) { out.case(r, a); }
+            // one thread per batch: the n failing parses, then the valid texts one after another (so the first one has exactly
+            // the history its line states, the j-th one additionally the j-1 successful parses of the lines before it)
+            let answers = after_failures(n, &fails, || texts.iter().map(|t| answer(t)).collect::<Vec<_>>());
+            for (r, a) in reqs.iter().zip(answers.iter()) { out.case(r, a); }
         }
     }
 }
